@@ -97,7 +97,8 @@ def cases(rng, quick):
             e = None
             while e is None:
                 e = reg_expr(rng, regs)
-            form = rng.choice(["Sgate(%s) | 0", "Dgate(0.5, %s) | [0, 1]", "MeasureX(phi=%s) | 2", "Rgate(1, a=%s, b=2) | 1", "BSgate(%s, q0) | 3"])
+            form = rng.choice(["Sgate(%s) | 0", "Dgate(0.5, %s) | [0, 1]", "MeasureX(phi=%s) | 2", "Rgate(1, a=%s, b=2) | 1", "BSgate(%s, q0) | 3",
+                               "MeasureHomodyne(%s) | 2", "MeasureHomodyne(%s, select=q0 / 2) | 3", "MeasureX(0.5, %s, phi=1) | 2"])        # measurement statements with positional register expressions
             if ctx < 0.25 and rng.random() < 0.5:
                 form = rng.choice(["Gate({alpha}, %s) | 2", "Gate({alpha}, 0.5, %s) | 2", "Gate(2 * {b}, x, %s, {alpha}) | 1", "Gate({alpha}, k=%s, j={b}) | 0"])
             lines.append(form % e)
@@ -218,7 +219,7 @@ def run(tier, seed):
         #     number is a dyadic rational, so the written formula has an exactly representable value, computed with fractions)
         near = NEAR_OFFSET
         for expr, vals, exact in near:
-            for form in ("Zgate(%s) | 3", "Zgate(0.5, select=%s) | 3"):
+            for form in ("Zgate(%s) | 3", "Zgate(0.5, select=%s) | 3", "MeasureHomodyne(%s) | 3"):
                 text = HDR + "float shift = 1000.5\nMeasureX | 0\nMeasureX | 1\nMeasureX | 2\n" + form % expr + "\n"
                 res.case(text, True, None)
                 res.count("transform-near-offset")
